@@ -37,10 +37,39 @@ MSS = 512
 LOOP_STEP_BUDGET = 60000      # kernel steps per closed loop (the longest sound loop of the generators needs a few thousand)
 
 
+WINDOW_FIELDS = {'cwnd', 'ssthresh', 'rto', 'srtt', 'dev', 'cubic'}
+
+
+def window_rules_are_the_cause(impl, model):
+    """C16 is about acknowledgements and delivery; the size of the window and the RTO are C17's ("adapts it by the Reno/CUBIC rules",
+    "the RTO equals srtt + 4*rttvar").  The sender LTS is replayed step by step on the implementation's own events, so the first line
+    on which implementation and model differ shows what they disagree about: if it is a state snapshot that differs only in the
+    window / RTO fields (cwnd, ssthresh, rto, srtt, dev, the CUBIC variables), the disagreement is about a window or RTO rule - C17
+    replays the same sender LTS and reports it - and is recorded in the evidence, not counted here.  A first difference in what was
+    sent, in the acknowledged mark, the duplicate count, the timers or the process state counts, as does any difference at the sink."""
+    import re
+    d = first_diff(impl, model or [])
+    if not d or not (isinstance(d[1], str) and isinstance(d[2], str) and d[1].startswith('S ') and d[2].startswith('S ')):
+        return False
+    fx = re.findall(r'(\w+)=(\[[^\]]*\]|\S+)', d[1])
+    fy = dict(re.findall(r'(\w+)=(\[[^\]]*\]|\S+)', d[2]))
+    diff = {k for k, v in fx if fy.get(k) != v} | (set(fy) - {k for k, _ in fx})
+    return bool(diff) and diff <= WINDOW_FIELDS
+
+
 def prepare(ctx):
+    """regenerate lean/OnlVerif/Generated/Sink.lean (TCPSink: this property's obligation) from the source under $ONL_REPO.
+    `Generated/TcpCC.lean` - the window / RTO rules, which C17 owns - is only *used* here: the closed-loop model runs it, so it is
+    refreshed to follow the source, but a translator failure keeps the previous file and is C17's to report, and if the refreshed
+    file (or hand-written code over it) no longer compiles the framework falls back to the pinned copy (py2lean/scope.py)"""
     from py2lean import translate, elements
     _PREP['translated'] = elements.TRANSLATED['Sink']
-    _PREP['rewritten'] = translate.regenerate_all(only=('TcpCC', 'Sink'))
+    try:
+        used = translate.regenerate_all(only=('TcpCC',), tolerate=True)
+        _PREP['used_not_owned'] = {'TcpCC': {'rewritten': used, 'translator_failure_left_to_C17': dict(translate.FAILED)}}
+    except Exception as x:      # never this property's obligation
+        _PREP['used_not_owned'] = {'TcpCC': {'refresh_failed': repr(x)}}
+    _PREP['rewritten'] = translate.regenerate_all(only=('Sink',))
     _PREP['diff_vs_pinned'] = translate.diff_vs_pinned('Sink')
 
 
@@ -434,6 +463,7 @@ def run(ctx):
     kmodel = model_batch('tcpsink', [f'CASE {key}\n' + '\n'.join(f'P {pid} {t[0].sender.mss}' for pid, a, b in t[3]) + '\nEND'
                                      for key, label, uc, c, t in units], 500)
     lines_compared = 0
+    foreign = {'count': 0, 'why': window_rules_are_the_cause.__doc__.strip(), 'samples': []}
     for key, label, uc, top, t in units:
         sr, sink, ended, sinklog, dpath, apath = t
         c = uc
@@ -467,7 +497,13 @@ def run(ctx):
         hist[f'loop-drops-{min(len(c["ddrops"]) + len(c["adrops"]), 4)}{"+" if len(c["ddrops"]) + len(c["adrops"]) >= 4 else ""}'] += 1
         hist['dropped-data'] += len(dpath.dropped)
         hist['dropped-acks'] += len(apath.dropped)
-        if sr.trace != m:
+        if sr.trace != m and window_rules_are_the_cause(sr.trace, m):
+            # not about delivery (see window_rules_are_the_cause): recorded, not counted
+            foreign['count'] += 1
+            if len(foreign['samples']) < 3:
+                d = first_diff(sr.trace, m)
+                foreign['samples'].append({'case': clean(c), 'detail': f'sender line {d[0]}: {explain_diff(d[1], d[2])}'})
+        elif sr.trace != m:
             d = first_diff(sr.trace, m)
             disagreements.append({'case': clean(top),
                                   'detail': f'{label}sender line {d[0]}: impl `{d[1][:300]}` model `{d[2][:300]}` {explain_diff(d[1], d[2])}',
@@ -521,8 +557,10 @@ def run(ctx):
         'sink_sequences': len(sinks), 'closed_loops': len(loops), 'closed_loops_executed_a_second_time': again,
         'traces_validated_against_impl': len(cases) - len({json.dumps(d['case'], sort_keys=True) for d in disagreements}),
         'sender_observation_lines_compared': lines_compared,
+        'disagreements_not_about_this_property': foreign,
         'operation_histogram': dict(sorted(hist.items())),
-        'translated': translate.TRANSLATED + _PREP.get('translated', []),
+        'translated': _PREP.get('translated', []),
+        'used_not_owned': dict(_PREP.get('used_not_owned', {}), translated_for_C17=translate.TRANSLATED),
         'generated_files_rewritten': _PREP.get('rewritten', []), 'generated_diff_vs_pinned': _PREP.get('diff_vs_pinned', []),
         'bridge_theorems': BRIDGES,
         'hand_modelled': ['TCPSink.packet_arrived (list.sort and the loop frame; its body is translated)',
